@@ -365,4 +365,31 @@ ObsPressureExplicit(m, a, pts, zero, hen) ==
               \o (IF hen.sm # 0 THEN (IF hen.sm = 1 THEN <<>> ELSE <<Bad("value", -1)>>)
                   ELSE IF DClose(hen.z, DMul(H, hen.p), DTol(4)) THEN <<>> ELSE <<Bad("henry", -1)>>)
   IN [bad |-> Flat(value, n) \o Flat(perpt, K) \o mono \o zeroc \o henc, prefix |-> K]
+---------------------------------------------------------------------------
+\* History on ONE model object.  The clauses of the property speak about "that same isotherm", i.e.
+\* the parameters the object holds NOW: whatever was evaluated before, and whatever other instance of
+\* the class was used in between, a call must give what a freshly built model with the current
+\* parameters gives (no hidden state: memo tables keyed without the parameters, class-level caches).
+\* A plan: evaluate A; evaluate another instance B of the class; evaluate A again; overwrite A's
+\* parameters in place one at a time with B's (evaluating after each); re-fit A in place; evaluate.
+\* `cur` = the parameters the evaluated object must be judged with (computed here, not observed).
+RECURSIVE SeqOfSet(_)
+SeqOfSet(S) == IF S = {} THEN <<>> ELSE LET x == CHOOSE y \in S : TRUE IN <<x>> \o SeqOfSet(S \ {x})
+Varies(m, q) == \E x, y \in ParamsG(m) : x[q] # y[q]
+HistPairs(m) == {ab \in ParamsG(m) \X ParamsG(m) : \A q \in DOMAIN ab[1] : Varies(m, q) => ab[1][q] # ab[2][q]}
+HistPlan(a, b) ==
+  LET order == SeqOfSet(DOMAIN a)
+      mix(i) == [q \in DOMAIN a |-> IF \E j \in 1..i : order[j] = q THEN b[q] ELSE a[q]]
+  IN <<[op |-> "eval", who |-> "A", param |-> "", cur |-> a],
+       [op |-> "eval", who |-> "B", param |-> "", cur |-> b],
+       [op |-> "eval", who |-> "A", param |-> "", cur |-> a]>>
+     \o [i \in 1..Len(order) |-> [op |-> "set", who |-> "A", param |-> order[i], cur |-> mix(i)]]
+     \o <<[op |-> "refit", who |-> "A", param |-> "", cur |-> a]>>       \* cur after a re-fit is observed (the object's own params)
+\* an observation pair: <<status, value>> of the object with a history and of a fresh model, same call, same argument
+SameOutcome(x, y) == x[1] = y[1] /\ (x[1] = 0 => (x[2] = y[2] \/ DClose(x[2], y[2], DTol(6))))
+\* q.evals: sequence of [step, fn, form, pairs = << <<hist outcome, fresh outcome>> >>]
+HistStep(q) ==
+  [bad |-> UNION {{[step |-> q.evals[i].step, fn |-> q.evals[i].fn, form |-> q.evals[i].form, at |-> j]
+                    : j \in {jj \in 1..Len(q.evals[i].pairs) : ~SameOutcome(q.evals[i].pairs[jj][1], q.evals[i].pairs[jj][2])}}
+                  : i \in 1..Len(q.evals)}]
 =============================================================================
